@@ -401,7 +401,10 @@ pub fn run_c16(cfg: &ShardCfg, out: &mut ShardOut) {
                 continue;
             }
             for ca in contents(&mut rng, la).into_iter().take(if cfg.thorough { 6 } else { 4 }) {
-                for cb in contents(&mut rng, lb).into_iter().skip(1).take(if cfg.thorough { 5 } else { 3 }) {
+                let cbs = contents(&mut rng, lb);
+                // (the empty byte string has one content only: nothing may be skipped there)
+                let skip = usize::from(cbs.len() > 1);
+                for cb in cbs.into_iter().skip(skip).take(if cfg.thorough { 5 } else { 3 }) {
                     for (sa, na) in reprs(&mut rng, &ca) {
                         for (sb, nb) in reprs(&mut rng, &cb) {
                             let boundary = la <= 9 && la + lb >= 7 && la + lb <= 10 || la == 8 || la == 9;
